@@ -137,7 +137,7 @@ fn formatting(rep: &mut Report) {
 }
 
 pub fn run(cfg: &Cfg, rep: &mut Report) {
-    rep.rule("the workloads of all other properties (C01-C17; quick: reduced sizes, thorough: quick sizes in the debug build and again in the release build) executed at opt-level 0 under a counting #[global_allocator] and a panic monitor: every API region (one call or one small case) must see zero allocator calls on the calling thread and must not panic unless the panic is a documented one being probed; plus Display/Debug of every public value type and scanner, error Display and failing parse/conversion paths into stack buffers; non-trivial = API region that executed library code without panicking; distinct_nontrivial is the number of distinct API entry points (labels) exercised, counted by the monitor");
+    rep.rule("the workloads of all other properties (C01-C17; quick: reduced sizes, thorough: quick sizes in the debug build and again in the release build) executed at opt-level 0 under a counting #[global_allocator] and a panic monitor: every API region (one call or one small case) must see zero allocator calls on the calling thread and must not panic unless the panic is a documented one being probed; plus Display/Debug of every public value type and scanner, error Display and failing parse/conversion paths into stack buffers; non-trivial = API region that executed library code without panicking; distinct_nontrivial is the number of distinct API entry points (labels) exercised, counted by the monitor ; thorough/release additionally runs the full (N)RPN encoding product, one monitored region per (constructor, channel, number) row");
     let mut sub = cfg.clone();
     sub.as_c18 = true;
     let ids: &[&str] = &[
